@@ -79,7 +79,8 @@ def build_coq_locked(log):
     import consts
     consts.main(os.path.join(COQ, "Gen", "SrcConsts.v"))
     os.makedirs(os.path.join(COQ, "extracted"), exist_ok=True)
-    if not os.path.exists(os.path.join(COQ, "Makefile")):
+    mk, cp = os.path.join(COQ, "Makefile"), os.path.join(COQ, "_CoqProject")
+    if not os.path.exists(mk) or os.path.getmtime(mk) < os.path.getmtime(cp):
         rc, out = sh("coq_makefile -f _CoqProject -o Makefile", cwd=COQ, timeout=120)
         if rc != 0:
             return False, out
